@@ -55,7 +55,7 @@ theorem c08_unescape_enc (d : Bytes) : ∃ r, unescapeUri (pctEncodeAll d) = .ok
       obtain ⟨f1, f2, -⟩ := pctEncode_facts c
       simp only [pctEncode, List.cons_append, List.nil_append]
       unfold unescapeUri
-      simp only [if_true, f1, f2, hr]
+      simp only [if_true, radix16Pair_of_hexVal f1 f2, hr]
       exact ⟨_, rfl⟩
 
 theorem c08_unescape_normal {x : Bytes} (h : c08Normal x) : ∃ r, unescapeUri x = .ok r := by
